@@ -58,9 +58,13 @@ fn bt_values<'a, K, V>(m: &'a BTreeMap<K, V>) -> (r: Vec<&'a V>)
 /// unit langwire
 #[verifier::external_body] fn language(language_type: SupportedLanguage, config: Config, multi_file: bool) -> LangBox { unimplemented!() }
 #[verifier::external_body] fn walker_builder(directories: &[PathBuf], options: &Args) -> anyhow::Result<WalkBuilder> { unimplemented!() }
-/// threads + syn: whatever it returns
+/// C08: whether this run's parse recorded an error for some crate (one unknown fact about the run; parallel_parse is called once)
+pub uninterp spec fn run_has_errors() -> bool;
+/// threads + syn: whatever it returns - what it returns IS the run's parse result
 #[verifier::external_body]
-fn parallel_parse(parse_context: &ParseContext, walker_builder: WalkBuilder, language_type: SupportedLanguage) -> anyhow::Result<BTreeMap<CrateName, ParsedData>> { unimplemented!() }
+fn parallel_parse(parse_context: &ParseContext, walker_builder: WalkBuilder, language_type: SupportedLanguage) -> (r: anyhow::Result<BTreeMap<CrateName, ParsedData>>)
+    ensures r is Ok ==> has_errors(r->Ok_0) == run_has_errors()
+{ unimplemented!() }
 /// ASSUMED at map level (per crate proved in unit merge: the sort block leaves `errors` alone): reconciling aliases neither adds nor drops recorded errors
 #[verifier::external_body]
 fn reconcile_aliases(crate_parsed_data: &mut BTreeMap<CrateName, ParsedData>)
@@ -76,10 +80,10 @@ fn all_types(file_mappings: &mut BTreeMap<CrateName, ParsedData>) -> (r: CrateTy
 
 WRITER_TAIL = r'''
     /// the only function of this run that creates or modifies output files (units write / genloop say what it writes).
-    /// C08 is its PRECONDITION: it is entered only with data in which no crate carries a parse error.
+    /// C08 is its PRECONDITION: it is entered only in a run whose parse recorded no error (and with data that carries none).
     #[verifier::external_body]
     pub fn write_generated(destination: Output<'_>, lang: &mut LangBox, crate_parsed_data: BTreeMap<CrateName, ParsedData>, import_candidates: CrateTypes) -> (r: anyhow::Result<()>)
-        requires /*C08: nothing is written for a run with a recorded parse error*/ !has_errors(crate_parsed_data)
+        requires /*C08: nothing is written for a run with a recorded parse error*/ !run_has_errors(), !has_errors(crate_parsed_data)
     { unimplemented!() }
 }
 use writer::write_generated;
@@ -150,4 +154,4 @@ def make_unit():
 
 
 UNIT = make_unit()
-UNIT.allowed_calls = {'is_empty', 'clone', 'len', 'as_slice', 'iter', 'ignored_reference_types'}
+UNIT.allowed_calls = {'is_empty', 'clone', 'len', 'as_slice', 'iter', 'ignored_reference_types', 'is_err', 'is_ok', 'is_some', 'is_none'}     # the last four: vstd specifications
